@@ -185,12 +185,54 @@ def gen_noisy(rng, switches, kind):
     if kind == "noise_free":
         a, b = Q.gen_ab(rng)
         return dict(a=a, b=b, c=c, convex=convex, o=0.0)
+    if kind == "far_location":           # "every location": |a| up to 1e7 widths away from 0
+        loc = rng.choice([-1, 1]) * 10.0 ** rng.uniform(0, 3)
+        w = abs(loc) * 10.0 ** rng.uniform(-7, -3)
+        s = rng.choice([0.0, 10.0 ** rng.uniform(-4, 0)])
+        a = loc
+        b = a + w
+        return dict(a=a, b=b, c=c, convex=convex, o=s * (b - a))
+    if kind == "tiny_scale":             # "every scale": widths down to 1e-12 around 0
+        w = 10.0 ** rng.uniform(-12, -6)
+        a = w * rng.choice([0.0, -1.0, -0.5, rng.uniform(-2, 2)])
+        s = rng.choice([0.0, 10.0 ** rng.uniform(-4, 0)])
+        b = a + w
+        return dict(a=a, b=b, c=c, convex=convex, o=s * (b - a))
     a, b = Q.gen_ab(rng)
     s = Q.gen_s(rng, switches)
     return dict(a=a, b=b, c=c, convex=convex, o=s * (b - a))
 
 
+def qtc_family_search(rep, NQ):
+    """failing-input search after a correspondence disagreement on the noisy quantile curve that does not itself break the
+    property: the members on which an error of the inversion is amplified most by the cdf (c in {1,2,3}, small modelled
+    noise) at the levels the best of many draws reaches (n up to 1000); the first failure of F(t) = level is the replay"""
+    for c in (1, 2, 3):
+        for s in (1.5e-6, 3e-6, 1e-5, 3e-5, 1e-4, 3e-4, 1e-3, 1e-2):
+            for convex in (False, True):
+                rep.count("qtc_family_members_searched")
+                with warnings.catch_warnings():
+                    warnings.simplefilter("ignore")
+                    d = NQ(0.0, 1.0, c, s, convex)
+                    for mn in (False, True):
+                        for q in (0.1, 0.5, 0.9):
+                            ns = np.array([1.0, 3.0, 10.0, 50.0, 200.0, 500.0, 1000.0])
+                            t = d.quantile_tuning_curve(ns, q=q, minimize=mn)
+                            f = d.cdf(t)
+                            for n, tt, ff in zip(ns, t, f):
+                                lv = mp_level(q, n, mn)
+                                if np.isfinite(tt) and not abs(float(ff) - lv) <= 2e-5:
+                                    rep.violate(what="F(quantile_tuning_curve(n,q)) differs from the level of the best of n draws by more than 2e-5",
+                                                input=dict(cls="NoisyQuadraticDistribution", a=C.fhex(0.0), b=C.fhex(1.0), c=c, o=C.fhex(s),
+                                                           convex=convex, minimize=mn, q=C.fhex(q), ns=hexl([float(n)]), n=C.fhex(float(n))),
+                                                expected=lv, observed=float(ff), call="NoisyQuadraticDistribution.quantile_tuning_curve",
+                                                found_by="family search after a model/implementation disagreement")
+                                    return True
+    return False
+
+
 def noisy_quantile_part(rep, rng, drv, NQ, switches, n_cases):
+    searched = False
     cases = []
     for _ in range(n_cases):
         k = gen_noisy(rng, switches, rng.choice(["generic", "generic", "zero_inside", "noise_free"]))
@@ -243,6 +285,9 @@ def noisy_quantile_part(rep, rng, drv, NQ, switches, n_cases):
                 continue
             same = (float(t) == m) or (np.isfinite(t) and np.isfinite(m) and abs(float(t) - m) <= 1e-8 * S)
             if not same:
+                if not searched:
+                    searched = True
+                    qtc_family_search(rep, NQ)
                 rep.disagree(op="noisy.ppf(level)", input=dict(inp, n=C.fhex(n)), model=m, impl=float(t),
                              note="quantile curve differs from the model's 30-step bisection although F(t) is within 2e-5 of the level")
 
@@ -275,7 +320,7 @@ def noisy_average_part(rep, rng, drv, NQ, switches, n_cases, replay):
         dict(a=0.0, b=1.0, c=5, convex=False, o=1e-3, mn=True, ns=[100.0], atol=None),
         dict(a=0.3, b=1.3, c=5, convex=False, o=1e-3, mn=True, ns=[100.0], atol=None),
     ]
-    kinds = ["generic", "zero_inside", "edge_near_zero", "noise_free", "generic", "zero_inside"]
+    kinds = ["generic", "zero_inside", "edge_near_zero", "noise_free", "far_location", "tiny_scale", "generic", "zero_inside"]
     while len(cases) < n_cases:
         k = gen_noisy(rng, switches, kinds[len(cases) % len(kinds)])
         r = rng.random()
@@ -358,7 +403,10 @@ def noisy_average_part(rep, rng, drv, NQ, switches, n_cases, replay):
 def point_mass_part(rep, rng, drv, NQ):
     """a = b: o = 0 (point mass; finding F5, repaired by fd4085d) and o > 0 (a normal distribution)"""
     for (a, c, convex, o, n, mn) in [(2.0, 3, False, 0.0, 10.0, None), (0.0, 1, True, 0.0, 1.0, False), (-1.5, 10, True, 0.0, 1000.0, True),
-                                     (2.0, 3, False, 0.5, 10.0, None), (0.0, 5, True, 1e-3, 100.0, True)]:
+                                     (2.0, 3, False, 0.5, 10.0, None), (0.0, 5, True, 1e-3, 100.0, True),
+                                     (100.0, 2, False, 1e-5, 10.0, None), (0.0, 4, True, 1e-10, 100.0, False),
+                                     (rng.choice([-1, 1]) * 10.0 ** rng.uniform(-3, 3), rng.randint(1, 10), rng.random() < 0.5,
+                                      10.0 ** rng.uniform(-10, -2), float(rng.randint(1, 1000)), rng.choice([None, False, True]))]:
         inp = dict(cls="NoisyQuadraticDistribution", a=C.fhex(a), b=C.fhex(a), c=c, o=C.fhex(o), convex=convex, minimize=mn, ns=hexl([n]), atol=None)
         rep.count("noisy_avg:a=b,o%s0" % ("=" if o == 0 else ">"))
         with warnings.catch_warnings():
@@ -420,7 +468,7 @@ def run(seed, tier, replay=None):
         rule="noiseless: (a,b) as in C05 incl. point masses, c in 1..10, both shapes, minimize in {None,F,T}, q in {0,1/2,1,...,log-close to 0/1}, "
              "n = 7 sorted reals in [1,1000] incl. 1 and 1000 (array and scalar). noisy quantile curve: generic / zero-inside-range / o=0 "
              "instances, s on both sides of every switch point. noisy average curve: the two documented probes, then generic / 0 inside "
-             "[a-6o,b+6o] / an end of the range within 1e-6..5% of 0 / o=0; scalar and array n; atol None or in [1e-6 S, 1e-3]; a=b with "
+             "[a-6o,b+6o] / an end of the range within 1e-6..5% of 0 / o=0 / |location| up to 1e7 widths from 0 / widths down to 1e-12; scalar and array n; atol None or in [1e-6 S, 1e-3]; a=b with "
              "o=0 and o>0; every integrated call in a forked child (60 s, +1 GiB). A case is (curve, distribution, n[, q]).",
         extra=dict(driver_lines=drv.lines, extra=dict(calibration=calib),
                    oracle="levels and noiseless closed forms in mpmath (40 digits); adaptive 20-point Gauss-Legendre quadrature of the class's own "
